@@ -17,12 +17,12 @@ theorem setnx_disciplined (k : Key) (v : Nat) : Disciplined (setnx k v) := by
     · simp at h; subst h; simp
     · simp at h
 
-structure NxInv {n : Nat} (k : Key) (v : Fin n → Nat) (a : Abs (Prog Nat) n) : Prop where
+structure NxInv {n : Nat} (k : Key) (v : Fin n → Nat) (a : Abs Nat Nat (Prog Nat) n) : Prop where
   shape : ∀ i, a.pr i = setnx k (v i) ∨ ∃ r, a.pr i = .done r
   state : (a.db k = 0 ∧ ∀ i, a.pr i = setnx k (v i)) ∨
           (∃ w, a.db k = v w ∧ a.pr w = .done 1 ∧ ∀ i, i ≠ w → a.pr i = setnx k (v i) ∨ a.pr i = .done 0)
 
-theorem nx_step {n : Nat} (k : Key) (v : Fin n → Nat) (hv : ∀ i, v i ≠ 0) (a : Abs (Prog Nat) n) (h : NxInv k v a) (i : Fin n) :
+theorem nx_step {n : Nat} (k : Key) (v : Fin n → Nat) (hv : ∀ i, v i ≠ 0) (a : Abs Nat Nat (Prog Nat) n) (h : NxInv k v a) (i : Fin n) :
     NxInv k v (absStep view a (some i)) := by
   rcases h.shape i with hi | ⟨r, hi⟩
   · have hview : view (a.pr i) = some ⟨.W, [k], (fun s => if s k = 0 then [(k, v i)] else []),
@@ -53,7 +53,7 @@ theorem nx_step {n : Nat} (k : Key) (v : Fin n → Nat) (hv : ∀ i, v i ≠ 0) 
     rw [this]; exact h
 
 theorem nx_run {n : Nat} (k : Key) (v : Fin n → Nat) (hv : ∀ i, v i ≠ 0) (tr : List (Fin n)) :
-    ∀ a : Abs (Prog Nat) n, NxInv k v a → NxInv k v (absRun view a tr) := by
+    ∀ a : Abs Nat Nat (Prog Nat) n, NxInv k v a → NxInv k v (absRun view a tr) := by
   induction tr with
   | nil => intro a h; exact h
   | cons i r ih => intro a h; exact ih _ (nx_step k v hv a h i)
@@ -61,12 +61,12 @@ theorem nx_run {n : Nat} (k : Key) (v : Fin n → Nat) (hv : ∀ i, v i ≠ 0) (
 /-- **SETNX has exactly one winner**: `n ≥ 1` clients run `SETNX k vᵢ` on a missing key under any interleaving; once
     all have their reply, exactly one reply is 1, all others are 0, and the key holds the winner's value -/
 theorem setnx_one_winner {n : Nat} (k : Key) (db : Key → Nat) (hmiss : db k = 0) (v : Fin n → Nat) (hv : ∀ i, v i ≠ 0)
-    (i0 : Fin n) {c' : Conc (Prog Nat) n} {tr}
+    (i0 : Fin n) {c' : Conc Nat Nat (Prog Nat) n} {tr}
     (e : Exec view ⟨db, fun i => .idle (setnx k (v i))⟩ tr c') (reply : Fin n → Nat)
     (hq : ∀ i, c'.th i = .idle (.done (reply i))) :
     ∃ w, reply w = 1 ∧ c'.db k = v w ∧ ∀ i, i ≠ w → reply i = 0 := by
   have hat := atomicity closed db (fun i => setnx k (v i)) (fun i => setnx_disciplined k (v i)) e (fun i => .done (reply i)) hq
-  have h0 : NxInv k v (⟨db, fun i => setnx k (v i)⟩ : Abs (Prog Nat) n) :=
+  have h0 : NxInv k v (⟨db, fun i => setnx k (v i)⟩ : Abs Nat Nat (Prog Nat) n) :=
     ⟨fun i => Or.inl rfl, Or.inl ⟨hmiss, fun i => rfl⟩⟩
   have h := nx_run k v hv tr _ h0
   obtain ⟨hdb, hpr⟩ := hat
